@@ -1707,6 +1707,13 @@ func (t *tracker) observeCmd(c *Cmd, before *Dump) {
 		} else {
 			delete(t.clientVIP, ":"+strings.ToLower(node+"/"+sp.ID))
 		}
+		// an instance of a name that is a service-defaults Destination is written: the registration re-stamps
+		// the kind of the destination's gateway rows ("service").  Recorded at the write, because inside one
+		// transaction the instance may be renamed away again before any dump shows it.
+		if destConf(before, sp.Name) {
+			t.destWithInst[sp.Name] = true
+			t.flags["destination-with-instances"] = true
+		}
 		node = strings.ToLower(node) // instance identity is case-insensitive in the store
 		defer pairsTwice()
 		oldUps := ups[node+"/"+strings.ToLower(sp.ID)]
